@@ -95,6 +95,62 @@ pub fn pool(args: &[&str]) -> Option<Vec<String>> {
 }
 
 
+/// `urlauth <client s|a> <user as written in the URL> <password as written in the URL>`: a transport built by `from_url`
+/// from `smtp://user:password@<peer>` authenticates against a peer offering AUTH PLAIN → the AUTH command it sent
+pub fn urlauth(args: &[&str]) -> Option<Vec<String>> {
+    let client = *args.first()?;
+    let user = unhex_str(args.get(1)?)?;
+    let pass = unhex_str(args.get(2)?)?;
+    let steps: Vec<Step> = vec![
+        Step { reply: b"220 srv ESMTP\r\n".to_vec(), close: false },
+        Step { reply: b"250-srv\r\n250 AUTH PLAIN\r\n".to_vec(), close: false },
+        Step { reply: b"235 ok\r\n".to_vec(), close: false },
+        Step { reply: b"250 ok\r\n".to_vec(), close: false },
+        Step { reply: b"250 ok\r\n".to_vec(), close: false },
+        Step { reply: b"354 go\r\n".to_vec(), close: false },
+        Step { reply: b"250 queued\r\n".to_vec(), close: false },
+        Step { reply: b"221 bye\r\n".to_vec(), close: false },
+    ];
+    let (listener, port) = listen()?;
+    let server = std::thread::spawn(move || serve_one(listener, steps));
+    let url = format!("smtp://{}:{}@{}:{}", user, pass, crate::util::lo(), port);
+    let env = parse_envelope(&hex(b"a@b.c"), &hex_list(&[b"x@y.z".to_vec()]))??;
+    let res = match client {
+        "s" => match SmtpTransport::from_url(&url) {
+            Ok(b) => {
+                let t = b.timeout(Some(Duration::from_secs(3))).build();
+                let r = t.send_raw(&env, b"m\r\n");
+                drop(t);
+                if r.is_ok() { "sent" } else { "senderr" }
+            }
+            Err(_) => "urlerr",
+        },
+        "a" => match AsyncSmtpTransport::<Tokio1Executor>::from_url(&url) {
+            Ok(b) => {
+                let rt = tokio::runtime::Builder::new_multi_thread().worker_threads(2).enable_all().build().ok()?;
+                let r = rt.block_on(async {
+                    let t: AsyncSmtpTransport<Tokio1Executor> = b.timeout(Some(Duration::from_secs(3))).build();
+                    let r = tokio::time::timeout(Duration::from_secs(8), t.send_raw(&env, b"m\r\n")).await;
+                    t.shutdown().await;
+                    drop(t);
+                    matches!(r, Ok(Ok(_)))
+                });
+                rt.shutdown_background();
+                if r { "sent" } else { "senderr" }
+            }
+            Err(_) => "urlerr",
+        },
+        _ => return None,
+    };
+    if res == "urlerr" {
+        // nobody connects: unblock the peer
+        let _ = std::net::TcpStream::connect((crate::util::lo(), port));
+    }
+    let rec = server.join().ok()?;
+    let auth = rec.units.iter().find(|u| u.starts_with(b"AUTH ")).map(|u| hex(u)).unwrap_or("-".into());
+    Some(vec![res.to_string(), auth])
+}
+
 /// `tconn <client s|a> <script>`: `test_connection()` of the transport against a scripted peer → `true` / `false` /
 /// `err`, and the units the peer received
 pub fn tconn(args: &[&str]) -> Option<Vec<String>> {
